@@ -48,6 +48,8 @@ type Obligation struct {
 func (o Obligation) Key() string { return o.Rule + "|" + o.Construct }
 
 type Ctx struct {
+	// RuleAlias, when set, replaces the rule id of every obligation recorded (a rule shared by another property).
+	RuleAlias string
 	RepoDir string
 	Fset    *token.FileSet
 	Pkgs    []*packages.Package
@@ -120,6 +122,9 @@ func (c *Ctx) ReadFile(rel string) ([]byte, error) {
 }
 
 func (c *Ctx) add(rule, construct string, st Status, pos token.Pos, msg string) {
+	if c.RuleAlias != "" {
+		rule = c.RuleAlias
+	}
 	o := Obligation{Rule: rule, Construct: construct, Status: st.String(), Msg: msg}
 	if pos.IsValid() {
 		o.Pos = c.PosStr(pos)
